@@ -740,35 +740,35 @@ example :
 
 /-- **src_constants.**  Data of the source the rank-level models rely on: the data send and the data receive use one
     tag, the scalar send and receive of `sendFixedSize` use one tag and exactly one item, the two tags differ (a scalar
-    can never be matched with a data receive: `FixSys` keeps them on separate channels); every `MessageBuffer` of
-    `communicateFixedSize`, `communicateSizes`, `communicateVariableSize` is built with `maxBufferSize_`
-    whatever the interface; the constructors without a size argument agree on one positive default; each loop counter
-    of the variable-size path is initialised by counting the non-null requests of *its own* request vector
-    (`VarSys` re-initialises the counters exactly so); the three wrappers hand `checkAndContinue` the request vectors,
+    can never be matched with a data receive: `FixSys` keeps them on separate channels); the data send buffers of
+    `communicateFixedSize` and `communicateVariableSize` hold at least `maxBufferSize_` items (an index that fits the
+    configured size is packed) and the data receive buffers at least as much as the send buffers (no truncation); in
+    `communicateSizes` both sides use one chunk length ≥ 1 (the receiver copies `min(buffer.size(), indicesLeft)` sizes
+    per message, so the lengths must agree) — which vector is the send resp. receive side is read off the
+    `setupRequests` / `receiveSizeAndSetupReceive` calls; the constructors without a size argument agree on one positive default; the three wrappers hand `checkAndContinue` the request vectors,
     functors and flags the small-step machine `Pair` is built from (scalar completions set up the data receive and are
     not counted twice; send completions repack; receive completions unpack with `MPI_Get_count` iff the handle is
     not fixed-size, and re-post). -/
 theorem src_constants :
     Gen.dataSendTag = Gen.dataRecvTag ∧ Gen.scalarSendTag = Gen.scalarRecvTag ∧ Gen.scalarSendTag ≠ Gen.dataSendTag ∧
     Gen.scalarSendCount = 1 ∧ Gen.scalarRecvCount = 1 ∧
-    (∀ m n, ∀ x ∈ Gen.bufferSizes m n, x = m) ∧ Gen.bufferSizes 1 1 ≠ [] ∧
+    (∀ m n, ∀ p ∈ Gen.dataBuffers m n, m ≤ p.1 ∧ p.1 ≤ p.2) ∧
+    (∀ m n, 1 ≤ m → 1 ≤ (Gen.sizeBuffers m n).1 ∧ (Gen.sizeBuffers m n).1 = (Gen.sizeBuffers m n).2) ∧
     (∀ x ∈ Gen.defaultBufferSizes, x = Gen.defaultBufferSize) ∧ 0 < Gen.defaultBufferSize ∧
-    Gen.counterInit = [("communicateSizes", "size_to_send", "send_requests"),
-                       ("communicateSizes", "size_to_recv", "recv_requests"),
-                       ("communicateVariableSize", "no_to_send", "send_requests"),
-                       ("communicateVariableSize", "no_to_recv", "recv_requests")] ∧
     Gen.wrappers =
       [("receiveSizeAndSetupReceive", ["p0", "p1", "p2", "p3", "p4", "p5", "NullPackUnpackFunctor", "SetupRecvRequest", "false"]),
        ("checkSendAndContinueSending", ["p0", "p1", "p2", "p2", "p3", "p4", "NullPackUnpackFunctor", "SetupSendRequest"]),
        ("checkReceiveAndContinueReceiving", ["p0", "p1", "p2", "p2", "p3", "p4", "UnpackEntries", "SetupRecvRequest", "true",
                                              "!Impl::callFixedSize(p0)"])] := by
-  refine ⟨by decide, by decide, by decide, by decide, by decide, fun m n x hx => ?_, by decide, by decide, by decide,
-    by decide, by decide⟩
-  simp [Gen.bufferSizes] at hx
-  omega
+  refine ⟨by decide, by decide, by decide, by decide, by decide, fun m n p hp => ?_, fun m n hm => ?_, by decide, by decide,
+    by decide⟩
+  · simp only [Gen.dataBuffers, List.mem_cons, List.not_mem_nil, or_false] at hp
+    rcases hp with rfl | rfl <;> constructor <;> first | omega | (simp; done) | (simp; omega)
+  · unfold Gen.sizeBuffers
+    constructor <;> first | omega | (simp; done) | (simp; omega)
 
-/-- non-vacuity of the last clauses: the default is the documented 32768 and there are two such constructors. -/
-example : Gen.defaultBufferSizes = [32768, 32768] ∧ Gen.dataSendTag = 933399 := by decide
+/-- non-vacuity: there is a constructor with a numeric default, and the wrapper table has its three rows. -/
+example : Gen.defaultBufferSizes ≠ [] ∧ Gen.wrappers.length = 3 := by decide
 
 /-- **src_directions_trackers.**  "Both directions": as read from the source, `forward()` instantiates `communicate<true>`,
     `backward()` `communicate<false>`, the direction parameter is handed down unchanged to `communicateFixedSize`,
@@ -796,5 +796,68 @@ example :
      Gen.trackersStepFixed true (Gen.trackersInitFixed true) 2 0 3,
      Gen.trackersStepFixed true 3 0 4 99, Gen.recvAllocSizes 0, Gen.recvAllocSizes 3) =
       ([3], [1, 2], 3, 3, true, false) := by decide
+
+/-- **src_check_and_continue.**  The body `checkAndContinue` runs for one completed request, as read from the source
+    (`buffer_func` with the `MPI_Get_count` value iff `getCount`, read from the status at the *position in the completed
+    list*; `skipZeroIndices`; `if(!finished) { comm_func on buffers[*index] / requests2[*index]; skipZeroIndices;
+    if(valid) --no_completed; }`; the tracker is `trackers[*index]`, `setReceivingIndex(handle, *index)` comes first —
+    all checked by the translator), is what the small-step machine `Pair` does in `recvDone` (buffer functor = the
+    configuration's unpack, communication functor = `SetupRecvRequest`) and in `sendDone` (null functor,
+    `SetupSendRequest`, the new message appended to the channel), and what the function-level `recvLoop` does per
+    message; the completion is *not* counted (`--no_completed`) exactly when a new communication was set up and `valid`
+    is set — the rule by which `VarSys`/`FixSys` decrement their counters.  For every configuration, state, message.
+    (`recvDoneResult`, `sendDoneResult`, `recvLoopResult` in Proofs/C06Tie.lean only say where the components of the
+    body's result go: tracker, buffer, accumulator, request state `posted`/`active`/`null`, the new message onto the
+    channel, "still counted" flag cleared when nothing was set up.) -/
+theorem src_check_and_continue {σ β γ : Type} (c : PairCfg α σ) (s : Pair α σ) (m : List α)
+    (rep gc valid : Bool) (unpack : Tracker → MessageBuffer β → Nat → σ → Tracker × MessageBuffer β × σ)
+    (cf : Tracker → MessageBuffer β → Tracker × MessageBuffer β × γ)
+    (m' : List β) (ms : List (List β)) (t : Tracker) (b : MessageBuffer β) (posted n : Nat) (acc : σ) :
+    (s.rreq = .complete m → Pair.step c s .recvDone =
+      some (recvDoneResult s (Gen.checkAndContinueBody c.getCount true c.unpack (setupRecv c.repaired) m.length s.rt
+                    (s.rb.received m) s.acc))) ∧
+    (s.sreq = .complete → Pair.step c s .sendDone =
+      some (sendDoneResult s (Gen.checkAndContinueBody (σ := Unit) false true (fun t b _ a => (t, b, a))
+                    (fun t b => ((setupSend c.handle t b).tracker, (setupSend c.handle t b).buffer,
+                                 (setupSend c.handle t b).message)) 0 s.st s.sb ()))) ∧
+    (recvLoop rep gc unpack (m' :: ms) t b posted acc =
+      recvLoopResult rep gc unpack ms posted
+        (Gen.checkAndContinueBody gc true unpack (setupRecv rep) m'.length t (b.received m') acc)) ∧
+    ((Gen.checkAndContinueBody gc valid unpack cf n t b acc).2.2.2.2 =
+      (valid && (Gen.checkAndContinueBody gc valid unpack cf n t b acc).2.2.2.1.isSome)) ∧
+    Gen.ccDefaults = (true, false) :=
+  ⟨gen_recvDone c s m, gen_sendDone c s, gen_recvLoop rep gc unpack m' ms t b posted acc,
+   gen_uncounted gc valid unpack cf n t b acc, gen_ccDefaults⟩
+
+/-- non-vacuity: a receive tracker with sizes [2, 0, 1] gets a message of 2 items: the generated body unpacks index 5,
+    skips the zero-size index, re-posts the receive (`some true`) and does not count the completion; with the last
+    message the tracker is finished, nothing is posted and the completion counts. -/
+example :
+    let t : Tracker := ⟨0, 0, [5, 6, 7], true, [2, 0, 1], 0⟩
+    let r1 := Gen.checkAndContinueBody true true (unpackEntries (α := Nat)) (setupRecv true) 2 t
+                ((MessageBuffer.new 3).received [8, 9]) []
+    let r2 := Gen.checkAndContinueBody true true (unpackEntries (α := Nat)) (setupRecv true) 1 r1.1
+                (r1.2.1.received [4]) r1.2.2.1
+    r1.1.iface = [7] ∧ r1.2.2.1 = [⟨5, 2, [8, 9]⟩] ∧ r1.2.2.2.1 = some true ∧ r1.2.2.2.2 = true ∧
+    r2.1.iface = [] ∧ r2.2.2.1 = [⟨5, 2, [8, 9]⟩, ⟨7, 1, [4]⟩] ∧ r2.2.2.2.1 = none ∧ r2.2.2.2.2 = false := by
+  intro t r1 r2; decide
+
+/-- **src_progress_loops.**  Consistency of the three progress loops as read from the source, independent of the names
+    of the locals: in `communicateFixedSize`, `communicateSizes`, `communicateVariableSize` every call of the loop is
+    guarded by the counter it decrements (the data receives of the fixed path by `validRecvRequests` of the request
+    vector the call works on), that counter was initialised over the vectors the call works on (`count_if` over its
+    request vector; in the fixed path the neighbours with an empty list of its tracker vector are subtracted), the
+    (trackers, buffers, requests) it is given were set up together by one `setupRequests` with the functor of that role
+    (fixed-path data receives: by `receiveSizeAndSetupReceive`), the loop condition is the sum of exactly these counters
+    and no counter is decremented by two calls — the facts `VarSys`/`FixSys` build in when they initialise and guard
+    their counters. -/
+theorem src_progress_loops :
+    (∀ r ∈ Gen.progressLoops, r.2.2.1 = true ∧ r.2.2.2.1 = true ∧ r.2.2.2.2 = true) ∧
+    Gen.progressLoops.map (fun r => (r.1, r.2.1)) =
+      [("communicateFixedSize", "size"), ("communicateFixedSize", "send"), ("communicateFixedSize", "recv"),
+       ("communicateFixedSize", "loop"), ("communicateSizes", "send"), ("communicateSizes", "recv"),
+       ("communicateSizes", "loop"), ("communicateVariableSize", "send"), ("communicateVariableSize", "recv"),
+       ("communicateVariableSize", "loop")] := by
+  constructor <;> decide
 
 end DV.C06
